@@ -274,12 +274,40 @@ def check_C01(ck):
     std_evidence(ck, ["C01"], *r[:4])
 
 
+def c03_next_cells(scripts, impl_out):
+    """every definition's installed `next` against the specification's (nextB on the registry)"""
+    orc = verif.run_model(verif.inject_rng(scripts, impl_out), mode="--oracle")
+    compared = 0
+    for name, lines in scripts:
+        spec = {}
+        for l in orc.get(name, []):
+            m = re.match(r"specnext (-?\d+) \[(.*)\]", l)
+            if m:
+                spec[int(m.group(1))] = m.group(2).split(",") if m.group(2) else []
+        _, methods = parse_dump(impl_out.get(name, []))
+        for m in methods:
+            if m["key"] in spec:
+                compared += 1
+                if m["next"] != spec[m["key"]]:
+                    return compared, (name, lines, {"kind": "failing input: next of a definition is not the most specific strictly more general definition",
+                                                    "method": m["key"], "installed_next_per_definition": m["next"], "specification": spec[m["key"]]})
+    return compared, None
+
+
 def check_C03(ck):
-    r = check_dispatch_family(ck, 800, 12000, "C03: next cells after update and next chains followed from calls",
-                              emphasis="multi")
-    scripts, gscripts, stats, impl_out, model_out, crashes = r
+    n = tier_n(ck, 800, 12000)
+    scripts = load_corpus("C03") + load_corpus("dispatch")
+    gscripts, stats = gen_dispatch_scripts(ck, n, emphasis="multi")
+    scripts += gscripts
+    single_update = [(n_, ls) for n_, ls in scripts if sum(1 for l in ls if l == "update") == 1]
+    impl_out, model_out, nbad = correspondence(ck, scripts, "C03: next cells after update and next chains followed from calls",
+                                               extra_oracle=lambda bad, by_name, io: c03_next_cells(single_update, io)[1])
+    k, f = c03_next_cells(single_update, impl_out)
+    if f and not ck.violations:
+        f[2].update(property="C03", script=f[1])
+        ck.violation(verif.write_replay("C03", f[0], f[2]), True)
     std_evidence(ck, ["C03"], scripts, gscripts, stats, impl_out,
-                 {"next_chains_followed": count_lines(impl_out, "ran [")})
+                 {"next_chains_followed": count_lines(impl_out, "ran ["), "methods_whose_next_cells_were_compared_with_the_specification": k})
 
 
 def check_C04(ck):
@@ -349,7 +377,8 @@ def check_C06(ck):
     base, stats = gen_dispatch_scripts(ck, n, dump=True, emphasis="multi")
     scripts = load_corpus("C06")
     groups = []
-    for (name, lines), st in zip(base, stats):
+    extra = load_corpus("dispatch")
+    for (name, lines), st in list(zip(base, stats)) + [(e, None) for e in extra]:
         perms = permutations_of(rng, lines, 4)
         names = []
         for j, p in enumerate(perms):
